@@ -26,6 +26,9 @@ else:
     CARGO_EXTRA = ["--config", "paths=[%s]" % ",".join('"%s/%s"' % (REPO, c) for c in
                    ("hcobs", "owning_iovec", "rough_tlv", "sliding_deque", "vouched_time"))]
 HBIN = os.path.join(TARGET, "release", "wp_harness")
+# second build of the same harness WITHOUT debug assertions / overflow checks (cargo profile `noassert`):
+# code under `#[cfg(not(debug_assertions))]` exists only there (families marked "noassert" run on both)
+HBIN_NA = os.path.join(TARGET, "noassert", "wp_harness")
 MBIN = os.path.join(LEAN, ".lake", "build", "bin", "wpmodel")
 STD_AXIOMS = {"propext", "Classical.choice", "Quot.sound"}
 FORBIDDEN = re.compile(r"\b(sorry|admit|native_decide|bv_decide|implemented_by|unsafe)\b|^\s*axiom\s|maxHeartbeats\s+0")
@@ -33,6 +36,7 @@ NCPU = os.cpu_count() or 4
 
 sys.path.insert(0, os.path.dirname(os.path.abspath(__file__)))
 from specs import SPECS  # noqa: E402
+NOASSERT_FAMILIES = {f["name"] for sp in SPECS.values() for f in sp["families"] if f.get("noassert")}
 
 
 def env_offline():
@@ -256,10 +260,16 @@ def proof_side(pid, spec, tier, log):
 
 # --------------------------------------------------------------------------- implementation side
 
-def build_harness(log):
+def build_harness(log, noassert=False):
     rc, out = run(["cargo", "build", "--release", "--offline"] + CARGO_EXTRA, cwd=HARNESS, timeout=3600)
     log("cargo build rc=%d" % rc)
-    return rc == 0 and os.path.exists(HBIN), out
+    ok = rc == 0 and os.path.exists(HBIN)
+    if ok and noassert:
+        rc2, out2 = run(["cargo", "build", "--profile", "noassert", "--offline"] + CARGO_EXTRA, cwd=HARNESS, timeout=3600)
+        log("cargo build --profile noassert rc=%d" % rc2)
+        if rc2 != 0 or not os.path.exists(HBIN_NA):
+            return False, out2
+    return ok, out
 
 
 def _unlimit_stack():
@@ -273,9 +283,9 @@ def _unlimit_stack():
             pass
 
 
-def run_impl(family, args, out_path, timeout=None):
+def run_impl(family, args, out_path, timeout=None, hbin=None):
     with open(out_path, "wb") as f:
-        p = subprocess.run([HBIN, family] + args, stdout=f, stderr=subprocess.PIPE, env=env_offline(),
+        p = subprocess.run([hbin or HBIN, family] + args, stdout=f, stderr=subprocess.PIPE, env=env_offline(),
                            preexec_fn=_unlimit_stack, timeout=timeout)
     return p.returncode, p.stderr.decode("utf-8", "replace")
 
@@ -382,6 +392,19 @@ def run_case_both(family, ops, tag):
         pass  # what it flushed before is still read below
     impl = list(iter_cases(ip, False)) if os.path.exists(ip) else []
     iobs, viols = (impl[0][2], impl[0][3]) if impl else ([], [])
+    if not viols and os.path.exists(HBIN_NA) and family in NOASSERT_FAMILIES:
+        # the case may need the build without debug assertions (families marked "noassert")
+        ip2 = ip + ".na"
+        try:
+            run_impl(family, ["--replay", rp], ip2, timeout=600, hbin=HBIN_NA)
+        except subprocess.TimeoutExpired:
+            pass
+        impl2 = list(iter_cases(ip2, False)) if os.path.exists(ip2) else []
+        if impl2 and impl2[0][3]:
+            iobs, viols = impl2[0][2], impl2[0][3]
+            os.replace(ip2, ip)
+        elif os.path.exists(ip2):
+            os.remove(ip2)
     mobs = None
     if os.path.exists(MBIN):
         try:
@@ -445,7 +468,8 @@ def _do_job(job):
     ip = os.path.join(wdir, "%s.%s.impl" % (fam["name"], tag))
     mp = os.path.join(wdir, "%s.%s.model" % (fam["name"], tag))
     try:
-        rc, err = run_impl(fam["name"], args, ip, timeout=fam.get("timeout", 7200))
+        rc, err = run_impl(fam["name"], args, ip, timeout=fam.get("timeout", 7200),
+                           hbin=HBIN_NA if str(tag).startswith("na-") else None)
     except subprocess.TimeoutExpired:
         return (fam, tag), None, "harness timed out"
     crash = None
@@ -538,7 +562,7 @@ def _main(argv):
 
     with Lock():
         ps = proof_side(pid, spec, tier, log)
-        hok, hout = build_harness(log)
+        hok, hout = build_harness(log, noassert=any(f.get("noassert") for f in spec["families"]))
 
     if a.replay:
         return do_replay(pid, spec, a.replay, hok, ps)
@@ -558,6 +582,11 @@ def _main(argv):
                         jobs.append((fam, "corpus-" + fn, ["--replay", os.path.join(cdir, fn)]))
         for fam, s, args in family_runs(spec, tier, seed):
             jobs.append((fam, "s%d" % s, args))
+            if fam.get("noassert"):
+                # the same shard again on the build without debug assertions (other seed, same model)
+                args2 = list(args)
+                args2[1] = str(int(args2[1]) + 250)
+                jobs.append((fam, "na-s%d" % s, args2))
 
         jobs = [(fam, tag, args, wdir, ps["model_ok"], vprefixes) for fam, tag, args in jobs]
         with concurrent.futures.ProcessPoolExecutor(max_workers=NCPU) as ex:
